@@ -874,7 +874,8 @@ static void describe_abort(char *buf, size_t n)
          * never executed) and the plan explains it (writers behind not yet started readers).  waiters >= threads makes
          * the livelock certain, but it also persists with fewer waiters than threads (plan of seed 1000446: 3 waiters,
          * 4 threads, ip: 1 of 6 runs of the REAL runtime did not finish), so the thread count is only printed. */
-        int sp = spinning_on_again(r);
+        int sp = 0;     /* over all ranks: a rank caught in the retry loop also starves the ranks that wait for its data */
+        for (int q = 0; q < SH.nranks; q++) sp += spinning_on_again(q);
         if (getenv("VERIF_DTD_DEBUG")) for (int q = 0; q < SH.nranks; q++) fprintf(stderr, "[dtd abort] starved task %d rank %d; rank %d: spinning=%d war_blocked_writers=%d\n", starved, r, q, spinning_on_again(q), war_blocked_writers(q));
         if (sp >= 1 && nw >= 1 && !nested_explains) snprintf(shape, sizeof(shape), " [again-livelock-shape spinning=%d waiters=%d threads=%d]", sp, nw, SH.nthreads);
         snprintf(buf, n, "%d of %d tasks done; task %d is data-ready (every earlier conflicting task finished) but never ran: ready-but-starved%s%s", done, total, starved, shape, ntag);
